@@ -2,11 +2,13 @@ package props
 
 import (
 	"fmt"
+	"image"
 	"image/color"
 
 	"github.com/reactivego/ivg"
 	"github.com/reactivego/ivg/decode"
 	"github.com/reactivego/ivg/encode"
+	"github.com/reactivego/ivg/render"
 
 	"ivgverif/internal/gen"
 	"ivgverif/internal/rec"
@@ -51,8 +53,112 @@ func init() {
 			{Name: "palettes", N: tier(625*3+20000, 625*3+300000), Run: c09Palette,
 				Rule: "suggested palettes through Encoder.Reset and Decode: every colour of the 5^4 multiple-of-0x40 grid (premultiplied) at index 0, 1 and 63, then PRNG palettes mixing 1/2/3/4-byte encodable colours with 1..64 explicit entries and trailing blacks",
 				Min:  map[string]int64{"palettes": 10000, "format_1": 100, "format_2": 100, "format_3": 100, "format_4": 100, "palette_after_viewbox_chunk": 5000, "direct_colours_equal_to_palette_entries": 30000, "hand_made_one_byte_palettes": 3000}},
+			{Name: "renderer-registers", N: tier(40000, 600000), Run: c09Renderer,
+				Rule: "chains of 2..10 stores into a real Renderer's colour registers (any RGBA value, also nonsensical ones; palette and register references; blends whose operands name registers stored earlier in the chain), each followed by a path filled from that register: the flat colour handed to Draw vs the blend formula on what the reference machine holds",
+				Min:  map[string]int64{"stores": 100000, "blends_on_a_stored_register": 20000, "blends_on_a_nonpremultiplied_register": 3000, "flat_paints_judged": 10000}},
 		},
 	})
+}
+
+// c09Renderer: the registers of a real Renderer hold exactly what was stored -
+// also values that cannot be painted themselves -, seen through later blends
+// that take them as operands and the flat colour that reaches Draw.
+func c09Renderer(c *run.Ctx, idx uint64) {
+	r := c.Rng(idx)
+	var pal [64]color.RGBA
+	for i := range pal {
+		if r.Chance(1, 4) {
+			pal[i] = gen.AnyRGBA(r)
+		} else {
+			pal[i] = gen.Premul(r)
+		}
+	}
+	rz := &rec.Raster{}
+	var z render.Renderer
+	z.SetRasterizer(rz, image.Rect(0, 0, 16, 16))
+	if r.Bool() {
+		// not a fresh Renderer: an earlier graphic has written its registers
+		dirtyDestination(r, &z, ivg.DefaultPalette)
+	}
+	z.Reset(ivg.DefaultViewBox, pal)
+	vm := ref.NewVM(ivg.DefaultViewBox, pal)
+	var written []int
+	var hist []string
+	n := r.Range(2, 10)
+	for k := 0; k < n; k++ {
+		reg := r.Intn(64)
+		var spec rec.ColorSpec
+		switch {
+		case len(written) > 0 && r.Chance(3, 5):
+			// a blend with at least one operand naming a register stored earlier
+			w := written[r.Intn(len(written))]
+			other := byte(r.Intn(256))
+			spec = rec.ColorSpec{Typ: ivg.ColorTypeBlend, T: uint8(r.Pick(r.Intn(256), r.Intn(256), 0, 255, 1, 254, 128)), C0: 0xc0 | byte(w), C1: other}
+			if r.Bool() {
+				spec.C0, spec.C1 = spec.C1, spec.C0
+			}
+			c.Count("blends_on_a_stored_register", 1)
+			if v := vm.CReg[w]; v.R > v.A || v.G > v.A || v.B > v.A {
+				c.Count("blends_on_a_nonpremultiplied_register", 1)
+			}
+		case len(written) > 0 && r.Chance(1, 4):
+			spec = rec.ColorSpec{Typ: ivg.ColorTypeCReg, Idx: uint8(written[r.Intn(len(written))])}
+		case r.Chance(1, 6):
+			spec = rec.ColorSpec{Typ: ivg.ColorTypePaletteIndex, Idx: uint8(r.Intn(64))}
+		case r.Chance(1, 3):
+			spec = rec.ColorSpec{Typ: ivg.ColorTypeRGBA, RGBA: gen.Premul(r)}
+		default:
+			spec = rec.ColorSpec{Typ: ivg.ColorTypeRGBA, RGBA: gen.AnyRGBA(r)}
+		}
+		op := rec.Op{K: rec.KSetCReg, Col: spec.Color()}
+		hist = append(hist, fmt.Sprintf("CREG[%d] = %s", reg, spec.String()))
+		detail := func() interface{} {
+			return map[string]interface{}{"palette": fmt.Sprint(pal), "stores": hist}
+		}
+		rz.ResetLog()
+		ok := c.Guard("Renderer", detail, func() {
+			z.SetCSel(uint8(reg))
+			z.SetCReg(0, false, op.Col)
+			z.StartPath(0, -8, -8)
+			z.AbsLineTo(8, -8)
+			z.AbsLineTo(8, 8)
+			z.ClosePathEndPath()
+		})
+		if !ok {
+			return
+		}
+		vm.CSel = reg
+		vm.Step(&op)
+		written = append(written, reg)
+		c.Count("stores", 1)
+		want := vm.CReg[reg]
+		c.Eval(run.Hash64(idx, uint64(k)), want != color.RGBA{0, 0, 0, 0xff})
+		switch {
+		case want.R <= want.A && want.G <= want.A && want.B <= want.A && want.A != 0:
+			c.Count("flat_paints_judged", 1)
+			if rz.NDraw != 1 || len(rz.Calls) == 0 {
+				c.Violate("register-value-not-painted", map[string]interface{}{"register": reg, "holds": fmt.Sprint(want), "draws": rz.NDraw, "stores": hist, "palette": fmt.Sprint(pal)})
+				return
+			}
+			last := rz.Calls[len(rz.Calls)-1]
+			if last.K != rec.RDraw || last.Paint == nil || last.Paint.Kind != 0 || !last.Paint.UniOK || last.Paint.UniRGBA != want {
+				c.Violate("painted-colour-differs-from-stored-value", map[string]interface{}{"register": reg, "holds": fmt.Sprint(want), "painted": fmt.Sprintf("%+v", last.Paint), "stores": hist, "palette": fmt.Sprint(pal)})
+				return
+			}
+		case ref.IsGradientValue(want):
+			c.Count("gradient_values_not_judged_here", 1)
+		default:
+			// fully transparent or not premultiplied: nothing may be painted
+			c.Count("unpaintable_values_stored", 1)
+			if rz.NMut != 0 {
+				c.Violate("activity-for-an-unpaintable-register-value", map[string]interface{}{"register": reg, "holds": fmt.Sprint(want), "stores": hist, "palette": fmt.Sprint(pal)})
+				return
+			}
+		}
+	}
+	if c.WantSample() {
+		c.Sample(map[string]interface{}{"stores": hist})
+	}
 }
 
 type colSink struct {
